@@ -20,6 +20,7 @@ type pmtShape struct {
 	name    string
 	ptr     int   // pointer_field value (filler 0xFF bytes follow it)
 	pre     []int // section_length values of complete non-PMT sections before the PMT
+	post    []int // section_length values of complete non-PMT sections after the PMT
 	pil     int   // program_info_length
 	streams []esShape
 	stuff   int // trailing 0xFF bytes
@@ -90,6 +91,12 @@ func (s pmtShape) layout() (total int, pmtAt int, consts map[int]func(b *BV) *BV
 		o += 5 + il
 	}
 	pos += 3 + sl
+	for _, sl := range s.post {
+		consts[pos] = all(0x42) // some other table
+		consts[pos+1] = low(sl>>8, 2)
+		consts[pos+2] = all(sl & 0xff)
+		pos += 3 + sl
+	}
 	for i := 0; i < s.stuff; i++ {
 		consts[pos] = all(0xFF)
 		pos++
@@ -118,6 +125,11 @@ var pmtShapes = []pmtShape{
 	{name: "pointer 3", ptr: 3, streams: []esShape{{desc: []int{4}}, {}}},
 	{name: "section before", ptr: 0, pre: []int{5}, streams: []esShape{{}}},
 	{name: "pointer, two sections before, stuffing", ptr: 2, pre: []int{4, 7}, pil: 2, streams: []esShape{{desc: []int{2, 2}}, {desc: []int{0}}}, stuff: 6},
+	// another table behind the PMT in the same payload: the payload is complete
+	// only when that section is, too (seed C05h: "done" at the end of the PMT
+	// section lets NewPMT run on a payload that cuts the following section)
+	{name: "a section after the PMT, stuffing", ptr: 0, streams: []esShape{{desc: []int{2}}}, post: []int{9}, stuff: 2},
+	{name: "sections before and after the PMT", ptr: 1, pre: []int{5}, streams: []esShape{{}}, post: []int{4, 6}},
 	{name: "trailing stuffing", ptr: 0, streams: []esShape{{}, {desc: []int{5}}}, stuff: 3},
 	// length fields that do not fit a byte
 	{name: "descriptor of 255 bytes, ES_info_length 262", ptr: 0, streams: []esShape{{desc: []int{255, 3}}, {}}},
@@ -503,6 +515,10 @@ func (c *Checker) checkDonePredicate() {
 			bounds[pos] = true
 		}
 		pos += 3 + sh.pmtSectionLength()
+		for _, sl := range sh.post {
+			bounds[pos] = true
+			pos += 3 + sl
+		}
 		end := pos
 		var bad []string
 		for k := 0; k <= total; k++ {
